@@ -731,8 +731,11 @@ class Array(Tuple):
         self.original_value = list(values)
 
     def get_sql(self, ctx: SqlContext) -> str:
-        if ctx.parameterizer is None or not ctx.parameterizer.should_parameterize(
-            self.original_value
+        if (
+            ctx.parameterizer is None
+            or not ctx.parameterizer.should_parameterize(self.original_value)
+            # an array holding terms cannot be one parameter: its elements are rendered (and parameterised) one by one
+            or any(isinstance(value, Term) for value in self.original_value)
         ):
             values = ",".join(term.get_sql(ctx) for term in self.values)
 
